@@ -482,11 +482,11 @@ Definition record (mc : MC.cfg) (f : list call) : list rec :=
 Definition to_mtrig (q : rtrig) : MC.trig :=
   {| MC.t_filter := q_filter q; MC.t_depth := option_map Z.to_N (q_depth q); MC.t_time := q_time q;
      MC.t_size := None; MC.t_trace_on := q_trace_on q; MC.t_trace_off := q_trace_off q;
-     MC.t_trace := q_trace q; MC.t_caller := q_caller q |}.
+     MC.t_trace := q_trace q; MC.t_caller := q_caller q; MC.t_loc := None; MC.t_finish := false |}.
 Definition to_mcfg (c : cfg) (sh : MC.shape) : MC.cfg :=
   {| MC.trig_of := fun k => to_mtrig (trig_of c k); MC.fmode_in := fmode_in c; MC.has_caller := caller_filter c;
      MC.gdepth := Z.to_N (gdepth c); MC.threshold := threshold c; MC.max_stack := 1024;
-     MC.sym_size := fun _ => 0%N; MC.shp := sh |}.
+     MC.sym_size := fun _ => 0%N; MC.shp := sh; MC.lmode_in := false |}.
 Definition plain : cfg :=
   {| trig_of := fun _ => notrig; fmode_in := false; caller_filter := false; gdepth := 1024; threshold := 0;
      range_start := 0; range_stop := 0; is_plt := fun _ => false; libcall := true; no_merge := false |}.
